@@ -135,9 +135,16 @@ def Dump.reach (d : Dump n) (start : Nat) : List Nat :=
 
 def Dump.isExp (d : Dump n) (i : Nat) : Bool := (d.nodes[i]?.map (·.expanded)).getD false
 
+/-- the computed set is closed: it contains `start` and every successor of its members (checked, so
+    that the soundness of the judge does not depend on how the set was computed) -/
+def Dump.closedFrom (d : Dump n) (start : Nat) (S : List Nat) : Bool :=
+  S.contains start && S.all fun x => (d.succ x).all S.contains
+
 /-- C15: an unrestricted BFS/DFS from `start` that returned `true` left no stub below `start` -/
 def judgeTrueComplete (d : Dump n) (start : Nat) : Option String :=
-  check ((d.reach start).all d.isExp) s!"returned True but an unexpanded node is reachable from node {start}"
+  firstSome
+    [ check (d.closedFrom start (d.reach start)) s!"internal: the reachable set of node {start} is not closed",
+      check ((d.reach start).all d.isExp) s!"returned True but an unexpanded node is reachable from node {start}" ]
 
 /-- C15: a size-limited run returns `false` only if an unexpanded node remains below `start` -/
 def judgeFalseHasStub (d : Dump n) (start : Nat) : Option String :=
